@@ -35,6 +35,15 @@ impl Scheduler {
         }
     }
 
+    /// Returns `true` if a panic is unwinding and no execution is in scope,
+    /// i.e. the model itself is being torn down. Values still owned by threads
+    /// that never ran (their closures) are dropped at that point and must not
+    /// try to reach the execution: that would panic in a destructor and abort
+    /// the process instead of reporting the original panic.
+    pub(crate) fn is_tearing_down() -> bool {
+        std::thread::panicking() && !STATE.is_set()
+    }
+
     /// Access the execution
     pub(crate) fn with_execution<F, R>(f: F) -> R
     where
